@@ -174,3 +174,43 @@ func VerifC07BuildOrder(perm, l1, l2, l3 int) {
 	verifAssert(verifSame(b1, b2), "same-bytes-whatever-construction-order")
 	verifReach("end")
 }
+
+// VerifC07SpecialKeys: an Options map that (also) holds the keys 0 (pad) and/or 255 (End), which
+// callers can create with OptGeneric/Update.  Those keys are outside the C01 value domain, so no
+// recovery of their values is claimed; the layout rules still hold for the packet: exactly one End
+// option outside option values, followed only by padding, and the other options recoverable.
+// keys: bit 0 = key 0 present, bit 1 = key 255 present; l = length of one ordinary option's value (-1: none).
+func VerifC07SpecialKeys(keys, l int) {
+	p := &DHCPv4{OpCode: OpcodeBootRequest, HWType: iana.HWTypeEthernet, Options: Options{}}
+	if keys&1 != 0 {
+		p.Options[0] = verifBytes("padval", 1)
+	}
+	if keys&2 != 0 {
+		p.Options[255] = verifBytes("endval", 2)
+	}
+	var code uint8
+	var val []byte
+	if l >= 0 {
+		code = verifU8("code")
+		verifAssume(code >= 1)
+		verifAssume(code <= 254)
+		val = verifBytes("val", l)
+		p.Options[code] = val
+	}
+	verifMapOrder(true)
+	b := p.ToBytes()
+	verifMapOrder(false)
+	got, ok := refValidateEncoding(b)
+	if !ok {
+		return
+	}
+	if l >= 0 {
+		verifAssert(len(got) == 1, "only-the-ordinary-option-is-emitted")
+		v, has := got[code]
+		verifAssert(has, "decoder-recovers-code")
+		verifAssert(verifSame(v, val), "decoder-recovers-value")
+	} else {
+		verifAssert(len(got) == 0, "pad-and-end-keys-are-not-emitted-as-options")
+	}
+	verifReach("end")
+}
